@@ -19,6 +19,8 @@ use serde_json::{json, Value};
 use std::cmp::Ordering;
 
 const P: &str = "C10";
+/// destination buffers handed to the library are pre-filled: a routine has to write every word of its result, whatever the buffer held
+const GARBAGE: u64 = 0x5a5a_5a5a_5a5a_5a5a;
 const MT: u64 = 1u64 << 32; // m_tilde
 
 // ------------------------------------------------------------------ small helpers
@@ -575,7 +577,7 @@ fn chk_m_tilde(cx: &Cx, rep: &mut Report, tl: &Tool, xs: &[BigU], icls: &str) ->
     let (n, k) = (tl.n, tl.k);
     let op = "fastbconv_m_tilde";
     let input = layout_u(xs, &tl.qs);
-    let r = lib(|| { let mut out = vec![0u64; (tl.kb + 2) * n]; tl.tool.fastbconv_m_tilde(&input, &mut out); out });
+    let r = lib(|| { let mut out = vec![GARBAGE; (tl.kb + 2) * n]; tl.tool.fastbconv_m_tilde(&input, &mut out); out });
     let out = match r { Ok(o) => o, Err(p) => { cx.viol(rep, op, tl.kc(), "panic", format!("x={:?}: {}", dec(xs), p.0), tl.info(json!({"x": dec(xs)}))); return None; } };
     let mut ms = tl.bsk.clone(); ms.push(MT);
     let mut cs = vec![]; let mut all_ok = true;
@@ -617,7 +619,7 @@ fn chk_sm_mrq(cx: &Cx, rep: &mut Report, tl: &Tool, cs: &[BigU], raw_in: Option<
     let op = "sm_mrq";
     let mut ms = tl.bsk.clone(); ms.push(MT);
     let input = match raw_in { Some(r) => r.to_vec(), None => layout_u(cs, &ms) };
-    let r = lib(|| { let mut out = vec![0u64; (tl.kb + 1) * n]; tl.tool.sm_mrq(&input, &mut out); out });
+    let r = lib(|| { let mut out = vec![GARBAGE; (tl.kb + 1) * n]; tl.tool.sm_mrq(&input, &mut out); out });
     let out = match r { Ok(o) => o, Err(p) => { cx.viol(rep, op, tl.kc(), "panic", format!("c''={:?}: {}", dec(cs), p.0), tl.info(json!({"c": dec(cs)}))); return None; } };
     let mut vals = vec![]; let mut all_ok = true;
     for j in 0..n {
@@ -653,7 +655,7 @@ fn chk_fast_floor(cx: &Cx, rep: &mut Report, tl: &Tool, zs: &[BigI], raw_in: Opt
     let op = "fast_floor";
     let mut ms = tl.qs.clone(); ms.extend(&tl.bsk);
     let input = match raw_in { Some(r) => r.to_vec(), None => layout_i(zs, &ms) };
-    let r = lib(|| { let mut out = vec![0u64; (tl.kb + 1) * n]; tl.tool.fast_floor(&input, &mut out); out });
+    let r = lib(|| { let mut out = vec![GARBAGE; (tl.kb + 1) * n]; tl.tool.fast_floor(&input, &mut out); out });
     let out = match r { Ok(o) => o, Err(p) => { cx.viol(rep, op, tl.kc(), "panic", format!("z={:?}: {}", deci(zs), p.0), tl.info(json!({"z": deci(zs)}))); return None; } };
     let ones = vec![1u64; tl.bsk.len()];
     let mut res = vec![]; let mut all_ok = true;
@@ -685,7 +687,7 @@ fn chk_sk(cx: &Cx, rep: &mut Report, tl: &Tool, ws: &[BigI], raw_in: Option<&[u6
     let (n, k) = (tl.n, tl.k);
     let op = "fastbconv_sk";
     let input = match raw_in { Some(r) => r.to_vec(), None => layout_i(ws, &tl.bsk) };
-    let r = lib(|| { let mut out = vec![0u64; k * n]; tl.tool.fastbconv_sk(&input, &mut out); out });
+    let r = lib(|| { let mut out = vec![GARBAGE; k * n]; tl.tool.fastbconv_sk(&input, &mut out); out });
     let h = (tl.msk - 1) / 2;
     let lo = bi(tl.kb as i64 - 1).sub(&to_i(&bu(h)));
     let hi = to_i(&bu(h));
@@ -727,13 +729,13 @@ fn chk_composed(cx: &Cx, rep: &mut Report, tl: &Tool, x1: &[BigI], x2: &[BigI], 
     let nb = tl.bsk.len();
     let a_q = layout_i(x1, &tl.qs); let b_q = layout_i(x2, &tl.qs);
     let r = lib(|| {
-        let lift = |inp: &[u64]| { let mut tmp = vec![0u64; (tl.kb + 2) * n]; tl.tool.fastbconv_m_tilde(inp, &mut tmp); let mut o = vec![0u64; nb * n]; tl.tool.sm_mrq(&tmp, &mut o); o };
+        let lift = |inp: &[u64]| { let mut tmp = vec![GARBAGE; (tl.kb + 2) * n]; tl.tool.fastbconv_m_tilde(inp, &mut tmp); let mut o = vec![GARBAGE; nb * n]; tl.tool.sm_mrq(&tmp, &mut o); o };
         let a_b = lift(&a_q); let b_b = lift(&b_q);
         let mut zin = vec![0u64; (k + nb) * n];
         for i in 0..k { let m = tl.qs[i]; for j in 0..n { zin[i * n + j] = refm::mulmod(refm::mulmod(a_q[i * n + j], b_q[i * n + j], m), t % m, m); } }
         for i in 0..nb { let m = tl.bsk[i]; for j in 0..n { zin[(k + i) * n + j] = refm::mulmod(refm::mulmod(a_b[i * n + j], b_b[i * n + j], m), t % m, m); } }
-        let mut fl = vec![0u64; nb * n]; tl.tool.fast_floor(&zin, &mut fl);
-        let mut res = vec![0u64; k * n]; tl.tool.fastbconv_sk(&fl, &mut res);
+        let mut fl = vec![GARBAGE; nb * n]; tl.tool.fast_floor(&zin, &mut fl);
+        let mut res = vec![GARBAGE; k * n]; tl.tool.fastbconv_sk(&fl, &mut res);
         res
     });
     let res = match r { Ok(o) => o, Err(p) => { cx.viol(rep, op, tl.kc(), "panic", format!("x1={:?} x2={:?}: {}", deci(x1), deci(x2), p.0), tl.info(json!({"x1": deci(x1), "x2": deci(x2)}))); return; } };
@@ -904,7 +906,7 @@ fn chk_scale_round(cx: &Cx, rep: &mut Report, tl: &Tool, xs: &[BigU], icls: &str
     if t == 0 { return; }
     let op = "decrypt_scale_and_round";
     let input = layout_u(xs, &tl.qs);
-    let r = lib(|| { let mut out = vec![0u64; n]; tl.tool.decrypt_scale_and_round(&input, &mut out); out });
+    let r = lib(|| { let mut out = vec![GARBAGE; n]; tl.tool.decrypt_scale_and_round(&input, &mut out); out });
     let two_q = tl.big_q.shl(1);
     let gh = bi(-(((tl.gamma - 1) / 2) as i64));
     let mut pre = vec![]; let mut want = vec![]; let mut rems = vec![];
@@ -970,7 +972,7 @@ fn chk_decrypt_mod_t(cx: &Cx, rep: &mut Report, tl: &Tool, xs: &[BigU], icls: &s
     if t == 0 { return; }
     let op = "decrypt_mod_t";
     let input = layout_u(xs, &tl.qs);
-    let r = lib(|| { let mut out = vec![0u64; n]; tl.tool.decrypt_mod_t(&input, &mut out); out });
+    let r = lib(|| { let mut out = vec![GARBAGE; n]; tl.tool.decrypt_mod_t(&input, &mut out); out });
     let pre: Vec<bool> = xs.iter().map(|x| { let d = to_i(&x.shl(1)).sub(&to_i(&tl.big_q)); d.m.shl(39).cmp_u(&tl.big_q) != Ordering::Less }).collect();
     let out = match r {
         Ok(o) => o,
